@@ -6,7 +6,8 @@
     op <sym> <a> <b>      `(sym a b)` evaluated by the real interpreter, sym ∈ + - * / < <= > >=, a b ∈ int64
                             observation  ok <int> | ok T | ok F | err
                             spec column  what the UNBOUNDED evaluator model (`Core.body sym [.int a, .int b]`) gives when
-                                         the true result is an int64 (for `/`: away from MinInt64 / -1), else `-`
+                                         the true result is an int64 (for `/`: away from MinInt64 / -1), else no
+                                         verdict (the column is left out, which `bin/check` reads as `-`)
     opx <sym> <arg>…      the same call with any number of arguments, arg ∈ <int> | nil | t | s   (`s` = the string "x")
                             observation  as `op` (anything but exactly two ints is `err`)
     lit <hex text>        the text READ by the real reader, the result PRINTed by the real printer
@@ -51,8 +52,8 @@ def runOp (op : String) (a b : Int) : String :=
   match goOp op a b with
   | none => "bad-op"
   | some o =>
-    let spec := if exactDomain op a b then renderBRes (Core.body op [.int a, .int b]) else "-"
-    renderObs o ++ "\t" ++ spec
+    -- no verdict = no spec column (`bin/check` reads a missing column as `-`; `bin/dev` would count a literal `-`)
+    if exactDomain op a b then renderObs o ++ "\t" ++ renderBRes (Core.body op [.int a, .int b]) else renderObs o
 
 inductive Arg | int (i : Int) | other
 
